@@ -159,7 +159,8 @@ fn process_z80r_block<H: Host>(emulator: &mut Emulator<H>, block_data: &[u8]) {
     emulator.cpu.halted = flags & ZXSTZF_HALTED != 0;
 
     if emulator.cpu.halted {
-        emulator.cpu.regs.inc_pc();
+        // SZX stores PC after the HALT, halted Z80 of rustzx stays on it
+        emulator.cpu.regs.dec_pc();
     }
 
     // v1.5
